@@ -325,6 +325,8 @@ def _mentions_verbose(test):
 # ---------------------------------------------------------------------------------------------------
 def r_evalshape(ctx):
     repo = ctx.repo
+    from . import c16 as _c16
+    _c16.ensure_accessor_programs(ctx)        # the accessors unrolled before / after a solve: they decide where a structural clause below is not met
     from . import leafprog
     try:
         if getattr(ctx, "_evalprog_done", None) is None:
@@ -355,7 +357,7 @@ def r_evalshape(ctx):
             pc = flow.path_counts(lp.body, lambda n: False)
             if set(pc) != {"next"}:
                 ok, msg = False, "the accumulation loop can exit early"
-    ctx.ob("R-EVALSHAPE", "Point.eval::linear combination", ok, msg, loc(fn, fn))
+    ctx.ob_or_program(("accessor", "Point", "eval"), "R-EVALSHAPE", "Point.eval::linear combination", ok, msg, loc(fn, fn))
     # Expression.eval
     fn = repo.method("Expression", "eval")
     ctx.unit("Expression.eval")
@@ -392,7 +394,7 @@ def r_evalshape(ctx):
                 ok = len(ini) == 1 and is_const(ini[0].value) and ini[0].value.value == 0 and len(st) == 1 and dotted(st[0].value) == accn and st[0].lineno > c.loop.lineno
                 if not ok:
                     msg = "accumulator not started from 0 / not stored as the value"
-    ctx.ob("R-EVALSHAPE", "Expression.eval::affine-bilinear combination", ok, msg, loc(fn, fn))
+    ctx.ob_or_program(("accessor", "Expression", "eval"), "R-EVALSHAPE", "Expression.eval::affine-bilinear combination", ok, msg, loc(fn, fn))
     # Constraint.eval evaluates its own expression; PSDMatrix.eval every entry in place
     fn = repo.method("Constraint", "eval")
     st = [s for s in flow.stmts_of(fn, ast.Assign) if any(dotted(t) == "self._value" for t in s.targets)]
@@ -403,11 +405,11 @@ def r_evalshape(ctx):
             d = [s2 for s2 in flow.stmts_of(fn, ast.Assign) if dotted(s2.targets[0]) == v.id]
             v = d[0].value if len(d) == 1 else v
         ok = src(v) == "self.expression.eval()"
-    ctx.ob("R-EVALSHAPE", "Constraint.eval::value of its expression", ok, "the value of a constraint is the value of its expression" if ok else "value is `%s`" % (src(st[0].value) if st else "?"), loc(fn, fn))
+    ctx.ob_or_program(("accessor", "Constraint", "eval"), "R-EVALSHAPE", "Constraint.eval::value of its expression", ok, "the value of a constraint is the value of its expression" if ok else "value is `%s`" % (src(st[0].value) if st else "?"), loc(fn, fn))
     fn = repo.method("PSDMatrix", "eval")
     st = [s for s in flow.stmts_of(fn, ast.Assign) if any(dotted(t) == "self._value" for t in s.targets)]
     ok = len(st) == 1 and _entrywise_eval(st[0].value)
-    ctx.ob("R-EVALSHAPE", "PSDMatrix.eval::entrywise values", ok, "entry (i, j) of the value is the value of entry (i, j)" if ok else "value is `%s`" % (src(st[0].value)[:80] if st else "?"), loc(fn, fn))
+    ctx.ob_or_program(("accessor", "PSDMatrix", "eval"), "R-EVALSHAPE", "PSDMatrix.eval::entrywise values", ok, "entry (i, j) of the value is the value of entry (i, j)" if ok else "value is `%s`" % (src(st[0].value)[:80] if st else "?"), loc(fn, fn))
 
 
 def _is_product(v, a, btext):
